@@ -38,6 +38,14 @@ logger = logging.getLogger(__name__)
 # Information needed to parse HCI packets with a generic parser:
 # For each packet type, the info represents:
 # (length-size, length-offset, unpack-type)
+def _body_length(packet_type: int, value: int) -> int:
+    # The length field of an ISO data packet is 14 bits wide: the two top bits are
+    # reserved for future use and ignored on receipt
+    if packet_type == hci.HCI_ISO_DATA_PACKET:
+        return value & 0x3FFF
+    return value
+
+
 HCI_PACKET_INFO: dict[int, tuple[int, int, str]] = {
     hci.HCI_COMMAND_PACKET: (1, 2, 'B'),
     hci.HCI_ACL_DATA_PACKET: (2, 2, 'H'),
@@ -147,9 +155,12 @@ class PacketParser:
                     self.bytes_needed = self.packet_info[0] + self.packet_info[1]
                 elif self.state == PacketParser.NEED_LENGTH:
                     assert self.packet_info is not None
-                    body_length = struct.unpack_from(
-                        self.packet_info[2], self.packet, 1 + self.packet_info[1]
-                    )[0]
+                    body_length = _body_length(
+                        self.packet[0],
+                        struct.unpack_from(
+                            self.packet_info[2], self.packet, 1 + self.packet_info[1]
+                        )[0],
+                    )
                     self.bytes_needed = body_length
                     self.state = PacketParser.NEED_BODY
 
@@ -195,7 +206,10 @@ class PacketReader:
             raise core.InvalidPacketError('packet too short')
 
         # Read the body
-        body_length = struct.unpack_from(packet_info[2], header, packet_info[1])[0]
+        body_length = _body_length(
+            packet_type[0],
+            struct.unpack_from(packet_info[2], header, packet_info[1])[0],
+        )
         body = self.source.read(body_length)
         if len(body) != body_length:
             raise core.InvalidPacketError('packet too short')
@@ -226,7 +240,10 @@ class AsyncPacketReader:
         header = await self.source.readexactly(header_size)
 
         # Read the body
-        body_length = struct.unpack_from(packet_info[2], header, packet_info[1])[0]
+        body_length = _body_length(
+            packet_type[0],
+            struct.unpack_from(packet_info[2], header, packet_info[1])[0],
+        )
         body = await self.source.readexactly(body_length)
 
         return packet_type + header + body
